@@ -1,2 +1,3 @@
 //! proptest strategies (everything random happens inside them, so failures shrink and replay)
 pub mod message;
+pub mod bytes;
